@@ -257,10 +257,7 @@ Definition attribute (perm : list string -> list string) (a : json) : res json :
       match attributed (elems0 "object" a) with
       | Ok (objs, attr_ids) =>
           let a1 := set_elems "object" (map (attr_obj perm actor_ids) (combine objs attr_ids)) a in
-          Ok (match elems "actor" a1 with
-              | None => a1
-              | Some _ => fold_left (attr_act perm actor_ids) attr_ids a1
-              end)
+          Ok (fold_left (attr_act perm actor_ids) attr_ids a1)
       | Err x => Err x
       | Panic s => Panic s
       end
@@ -432,14 +429,27 @@ Section Attr.
   Qed.
 End Attr.
 
-(* for EVERY order in which Go visits its maps (perm keeps the members of a list): the actors of the activity end as the union
-   of its actors and the attributedTo ids of the embedded objects that have the property; each such object ends with the union of
+Lemma apply_all_nils : forall l v, (forall t, In t l -> snd t = []) -> apply_all l v = v.
+Proof.
+  induction l as [|[p new] r IH]; intros v H; [reflexivity|]. cbn [apply_all fold_left fst snd]. fold (apply_all r (append_iris p new v)).
+  pose proof (H (p, new) (or_introl eq_refl)) as Hn. cbn [snd] in Hn. subst new. unfold append_iris. apply IH. intros t Ht. apply H. right. exact Ht.
+Qed.
+Lemma flat_map_nil {X Y} (g : X -> list Y) : forall l, flat_map g l = [] -> forall x, In x l -> g x = [].
+Proof.
+  induction l as [|y r IH]; intros H x Hx; [destruct Hx|]. cbn [flat_map] in H. apply app_eq_nil in H. destruct H as [H1 H2].
+  destruct Hx as [<-|Hin]; [exact H1|exact (IH H2 x Hin)].
+Qed.
+
+(* for EVERY Create - with or without an actor property - and EVERY order in which Go visits its maps (perm keeps the members of
+   a list): the actors of the activity end as the union of its actors and the attributedTo ids of the embedded objects that have
+   the property (the actor property is created when there is something to put into it); each such object ends with the union of
    its own attributedTo ids and the activity's actors (nothing else about it changes); every other element of the object property
-   and every other member of the activity is unchanged.
+   and every other member of the activity is unchanged; and when the objects contribute no id the activity lacks, the actor member
+   itself is untouched.
    Flatness: the actor property, the object property and each object's attributedTo hold no array nested directly in an array. *)
 Theorem attribution_unions perm : (forall l x, In x (perm l) <-> In x l) ->
-  forall a m al a2 A, a = JObj m ->
-  elems "actor" a = Some al -> no_arrays (elems0 "actor" a) = true ->
+  forall a m a2 A, a = JObj m ->
+  no_arrays (elems0 "actor" a) = true ->
   no_arrays (elems0 "object" a) = true ->
   Forall (fun e => no_arrays (elems0 "attributedTo" e) = true) (elems0 "object" a) ->
   attribute perm a = Ok a2 -> ids_of "actor" a = Ok A ->
@@ -447,9 +457,11 @@ Theorem attribution_unions perm : (forall l x, In x (perm l) <-> In x l) ->
      forall x, In x A2 <-> In x A \/ exists e t ids, In e (elems0 "object" a) /\ e_type "object" e = Some t /\ vhas t "attributedTo" = true /\
                                                    ids_of "attributedTo" t = Ok ids /\ In x ids) /\
   Forall2 (obj_attr_rel A) (elems0 "object" a) (elems0 "object" a2) /\
-  (forall q, q <> "actor" -> q <> "object" -> jget q a2 = jget q a).
+  (forall q, q <> "actor" -> q <> "object" -> jget q a2 = jget q a) /\
+  ((forall e t ids x, In e (elems0 "object" a) -> e_type "object" e = Some t -> vhas t "attributedTo" = true ->
+                      ids_of "attributedTo" t = Ok ids -> In x ids -> In x A) -> jget "actor" a2 = jget "actor" a).
 Proof.
-  intros perm_in a m al a2 A Hm Hal Hfa Hfo Hft. unfold attribute. intros H HA. rewrite HA in H.
+  intros perm_in a m a2 A Hm Hfa Hfo Hft. unfold attribute. intros H HA. rewrite HA in H.
   destruct (attributed (elems0 "object" a)) as [[objs attr_ids]|x|s] eqn:Eat; try discriminate.
   apply Ok_inj in H. subst a2.
   destruct (attributed_spec _ _ _ Eat) as [C [F [-> ->]]]. rewrite combine_fst_snd.
@@ -460,8 +472,6 @@ Proof.
   assert (O1 : exists m1, a1 = JObj m1) by (unfold a1, set_elems; rewrite Hm; apply jset_obj).
   destruct O1 as [m1 E1].
   assert (EO1 : elems0 "object" a1 = map (attr_obj perm A) C) by (unfold a1; apply (elems_set_elems "object" _ a m Hm); exact N1).
-  assert (Ea1 : elems "actor" a1 = Some al) by (rewrite <- Hal; unfold elems; rewrite (G1 "actor") by discriminate; reflexivity).
-  rewrite Ea1.
   rewrite (fold_append_map (fun oi => ("actor", act_new perm A oi)) (map snd C) (attr_act perm A) a1)
     by (intros acc [l|]; reflexivity).
   set (L := map (fun oi => ("actor", act_new perm A oi)) (map snd C)).
@@ -474,7 +484,7 @@ Proof.
   { intros t Ht. unfold L in Ht. apply in_map_iff in Ht. destruct Ht as [oi [<- Hoi]]. cbn [snd]. apply N3. exact Hoi. }
   destruct (apply_all_ids L a1 m1 E1 Hp Hs) as [_ [B2 B3]].
   assert (HA1 : ids_of "actor" a1 = Ok A) by (rewrite (ids_of_jget "actor" a a1) by (apply G1; discriminate); exact HA).
-  split; [|split].
+  split; [|split; [|split]].
   - exists (A ++ added "actor" L). split; [exact (B2 "actor" A HA1)|].
     intros x. unfold L. rewrite added_map_same, in_app_iff, N4. split.
     + intros [Hx|[_ Hx]]; [left; exact Hx|right; exact Hx].
@@ -482,28 +492,37 @@ Proof.
   - rewrite (elems0_jget "object" a1 (apply_all L a1)); [rewrite EO1; exact N2|].
     apply B3. intros Hc. apply Hin in Hc. discriminate Hc.
   - intros q Hqa Hqo. rewrite B3 by (intros Hc; apply Hin in Hc; exact (Hqa Hc)). apply G1. exact Hqo.
+  - intros Hnone.
+    assert (Hnil : flat_map (act_new perm A) (map snd C) = []).
+    { destruct (flat_map (act_new perm A) (map snd C)) as [|x r] eqn:Ef; [reflexivity|]. exfalso.
+      destruct (proj1 (N4 x) (or_introl eq_refl)) as [Hn [e [t [ids [He [Ht [Hv [Hi Hx]]]]]]]]. exact (Hn (Hnone e t ids x He Ht Hv Hi Hx)). }
+    rewrite apply_all_nils; [apply G1; discriminate|].
+    intros t Ht. unfold L in Ht. apply in_map_iff in Ht. destruct Ht as [oi [<- Hoi]]. cbn [snd]. exact (flat_map_nil _ _ Hnil oi Hoi).
 Qed.
 
-(* the same, for an activity without the actor property: only the objects change *)
+(* a Create that comes WITHOUT an actor property: its actors afterwards are exactly the attributedTo ids of its objects; when
+   the objects have none, it still has no actor property *)
 Theorem attribution_no_actor perm : (forall l x, In x (perm l) <-> In x l) ->
   forall a m a2, a = JObj m -> elems "actor" a = None ->
   no_arrays (elems0 "object" a) = true ->
   Forall (fun e => no_arrays (elems0 "attributedTo" e) = true) (elems0 "object" a) ->
   attribute perm a = Ok a2 ->
+  (exists A2, ids_of "actor" a2 = Ok A2 /\
+     forall x, In x A2 <-> exists e t ids, In e (elems0 "object" a) /\ e_type "object" e = Some t /\ vhas t "attributedTo" = true /\
+                                         ids_of "attributedTo" t = Ok ids /\ In x ids) /\
   Forall2 (obj_attr_rel []) (elems0 "object" a) (elems0 "object" a2) /\
-  (forall q, q <> "object" -> jget q a2 = jget q a).
+  (forall q, q <> "actor" -> q <> "object" -> jget q a2 = jget q a) /\
+  ((forall e t ids, In e (elems0 "object" a) -> e_type "object" e = Some t -> vhas t "attributedTo" = true ->
+                    ids_of "attributedTo" t = Ok ids -> ids = []) -> jget "actor" a2 = None).
 Proof.
-  intros perm_in a m a2 Hm Hal Hfo Hft. unfold attribute.
-  assert (HA : ids_of "actor" a = Ok []) by (unfold ids_of; rewrite Hal; reflexivity). rewrite HA.
-  destruct (attributed (elems0 "object" a)) as [[objs attr_ids]|x|s] eqn:Eat; try discriminate.
-  intros H. apply Ok_inj in H. subst a2.
-  destruct (attributed_spec _ _ _ Eat) as [C [F [-> ->]]]. rewrite combine_fst_snd.
-  destruct (attr_objs_spec perm perm_in [] (Forall_nil _) _ C F Hfo Hft) as [N1 [N2 _]].
-  set (a1 := set_elems "object" (map (attr_obj perm []) C) a).
-  assert (G1 : forall q, q <> "object" -> jget q a1 = jget q a) by (intros q Hq; unfold a1, set_elems; apply jget_jset_other; exact Hq).
-  assert (Ea1 : elems "actor" a1 = None) by (rewrite <- Hal; unfold elems; rewrite (G1 "actor") by discriminate; reflexivity).
-  rewrite Ea1. split; [|exact G1].
-  unfold a1. rewrite (elems_set_elems "object" _ a m Hm N1). exact N2.
+  intros perm_in a m a2 Hm Hal Hfo Hft Ha.
+  assert (HA : ids_of "actor" a = Ok []) by (unfold ids_of; rewrite Hal; reflexivity).
+  assert (Hfa : no_arrays (elems0 "actor" a) = true) by (unfold elems0; rewrite Hal; reflexivity).
+  assert (Hg : jget "actor" a = None) by (unfold elems in Hal; destruct (jget "actor" a) as [[| | | | |]|]; try discriminate Hal; reflexivity).
+  destruct (attribution_unions perm perm_in a m a2 [] Hm Hfa Hfo Hft Ha HA) as [[A2 [E2 Hiff]] [F2 [Hq Hun]]].
+  split; [|split; [exact F2|split; [exact Hq|]]].
+  - exists A2. split; [exact E2|]. intros x. rewrite Hiff. split; [intros [[]|Hx]; exact Hx|intros Hx; right; exact Hx].
+  - intros Hnone. rewrite <- Hg. apply Hun. intros e t ids x He Ht Hv Hi Hx. rewrite (Hnone e t ids He Ht Hv Hi) in Hx. destruct Hx.
 Qed.
 
 Definition ex_soc_create : json :=
@@ -524,6 +543,27 @@ Example attribution_not_vacuous :
   | _ => False
   end.
 Proof. vm_compute. repeat split; reflexivity. Qed.
+
+(* a Create that comes without an actor and with one Note attributed to zoe ends with actor zoe (fix F25) *)
+Example attribution_creates_actor :
+  let a := JObj [("type", JStr "Create"); ("id", JStr "https://example.com/activities/2");
+                 ("object", JObj [("type", JStr "Note"); ("id", JStr "https://example.com/notes/2");
+                                  ("attributedTo", JStr "https://example.com/users/zoe")])] in
+  jget "actor" a = None /\
+  match attribute (fun l => l) a with
+  | Ok a2 => jget "actor" a2 = Some (JStr "https://example.com/users/zoe") /\ ids_of "actor" a2 = Ok ["https://example.com/users/zoe"]
+  | _ => False
+  end.
+Proof. vm_compute. repeat split; reflexivity. Qed.
+(* ... and without any attributedTo id it still has no actor property *)
+Example attribution_leaves_no_actor :
+  let a := JObj [("type", JStr "Create"); ("id", JStr "https://example.com/activities/3");
+                 ("object", JObj [("type", JStr "Note"); ("id", JStr "https://example.com/notes/3")])] in
+  match attribute (fun l => l) a with
+  | Ok a2 => jget "actor" a2 = None
+  | _ => False
+  end.
+Proof. vm_compute. reflexivity. Qed.
 
 (* why the object property must be flat: a one-element object property whose element is a bare array is written back as that
    array, so the number of elements changes *)
